@@ -162,7 +162,26 @@ def c29(ck, F, tier):
     guarded(ck, ra.row_flow, F)
 
 
-PROPS = {"C08": c08, "C29": c29, "C17": c17, "C01": c01, "C02": c02, "C03": c03, "C04": c04, "C23": c23, "C26": c26}
+def c10(ck, F, tier):
+    import rules_pcfg as rp
+    ck.explanation = (
+        "Static decision of the storage discipline that makes language/locale switches harmless: (PCFG) a forward typestate "
+        "analysis of the model parser's configuration (lexer mode, locale, language; set_* calls as transitions) over every "
+        "Model function that parses: wherever stored text is parsed (Worksheet.shared_formulas: R1C1/default/default; "
+        "DefinedName.formula: A1/default/default, by provenance of the text argument) the configuration is the one the text "
+        "was printed in, and every function returns with (A1, active, active) restored; (STORE-EN) nothing printed by "
+        "to_localized_string is stored into shared_formulas or DefinedName.formula; (FOOTPRINT) the transitive write effects "
+        "of Model::set_language contain no persistent workbook state and it never evaluates; Model::set_locale writes only "
+        "settings.locale beyond what evaluation writes. Values of locale-independent functions are not decided.")
+    ck.rule("PCFG", "parser configuration matches the provenance of parsed text; restored at exit", floor=12)
+    ck.rule("STORE-EN", "stored formula text never comes from the localized printer", floor=6)
+    ck.rule("FOOTPRINT", "write footprint of set_language / set_locale", floor=5)
+    guarded(ck, rp.pcfg, F)
+    guarded(ck, rp.store_en, F)
+    guarded(ck, rp.footprint, F)
+
+
+PROPS = {"C08": c08, "C10": c10, "C29": c29, "C17": c17, "C01": c01, "C02": c02, "C03": c03, "C04": c04, "C23": c23, "C26": c26}
 
 
 def run(pid, tier):
